@@ -81,6 +81,8 @@ Step ==
             /\ UNCHANGED <<order, pv>>
             /\ LET c == ChunkClass(E) IN IF c = "ok" THEN Ok("chunks") ELSE Flag(c)
        [] E.ev = "ReadError" -> UNCHANGED <<order, pv>> /\ Flag("read-error")
+       \* the column index cannot be enumerated page by page (its lists are shorter than the number of pages)
+       [] E.ev = "IndexError" -> UNCHANGED <<order, pv>> /\ Flag("index-lists-misaligned")
 
 Spec == Init /\ [][Step]_vars
 Done == l = Len(Trace) + 1 =>
